@@ -1,21 +1,5 @@
-import IQE.Props.C21
 import IQE.Props.C21Gen
-open IQE.Props.C21
-#print axioms C21_hash_hom
-#print axioms C21_vectorized_hom
-#print axioms C21_morsel_hom
-#print axioms C21_rawSum_hom
-#print axioms C21_hash_hom_count_distinct
-#print axioms C21_hash_hom_sum_distinct_int
-#print axioms C21_hash_hom_sum_distinct_f64
-#print axioms C21_order_irrelevant
-#print axioms C21_ignores_null
-#print axioms C21_empty_group
-#print axioms C21_null_key_one_group
-#print axioms C21_null_key_group_rows
-#print axioms C21_global_one_row
-#print axioms C21_global_empty_values
-
+open IQE.Props.C21Gen
 #print axioms C21Gen_dispatch_order
 #print axioms C21Gen_merge_count
 #print axioms C21Gen_merge_sum
